@@ -17,6 +17,13 @@ NOT_DECIDED = ("format 0/2/4/6/10/12 lookup arithmetic, subtable preference orde
 
 
 def check(run, fx, tier, floors=True):
+    macroman(run, fx, floors)
+    if fx.body("font::find_good_cmap_subtable") is not None or floors:
+        t06_pref(run, fx)
+        t06_sib(run, fx)
+
+
+def macroman(run, fx, floors):
     run.rule("T06-INV", "macroman_to_char and char_to_macroman are mutual inverses on every code and every scalar value")
     m2c = fx.body("macroman::macroman_to_char")
     c2m = fx.body("macroman::char_to_macroman")
@@ -88,3 +95,152 @@ def check(run, fx, tier, floors=True):
             run.fail("T06-IS", "is_macroman", "is_macroman is not char_to_macroman(..).is_some(): calls %s" % names, "%s:%s" % (ism.file, ism.line))
     if floors:
         run.floor("T06-INV", "codes and scalar breakpoints compared", run.by_rule["T06-INV"]["obligations"], 500)
+
+
+# (platform id, encoding id) -> meaning, from the OpenType cmap specification
+SPEC_PAIRS = {(3, 10): "Unicode", (3, 1): "Unicode", (0, 4): "Unicode", (0, 3): "Unicode", (0, 6): "Unicode", (3, 0): "Symbol",
+              (1, 0): "AppleRoman", (3, 4): "Big5"}
+FULL_REPERTOIRE = {(3, 10), (0, 4), (0, 6)}
+
+
+def const_val(fx, t):
+    import sym
+    t = sym.strip(t)
+    if t[0] == "c":
+        return t[1]
+    if t[0] == "uneval":
+        c = fx.const(t[1])
+        return c.get("val") if c else None
+    return None
+
+
+def t06_pref(run, fx):
+    """the sub-table preference is a decision list of (platform, encoding) probes: read it from the CFG"""
+    import sym
+    rule = "T06-PREF"
+    run.rule(rule, "font::find_good_cmap_subtable probes (platform id, encoding id) pairs in an order where every pair means, by the cmap "
+                   "specification, the Encoding it is returned as; full-repertoire Unicode sub-tables (3,10)/(0,4) are probed before BMP-only "
+                   "ones of the same platform; every Unicode probe precedes Symbol, Mac Roman and Big5")
+    b = fx.body("font::find_good_cmap_subtable")
+    if b is None:
+        return run.anchor_missing(rule, "font::find_good_cmap_subtable")
+    prov = sym.Prov(b)
+    probes = []
+    for bi in b.rpo():
+        t = b.term(bi)
+        if t["k"] != "call":
+            continue
+        if callee_is(t, "Cmap::<'a>::find_subtable"):
+            pl, en = const_val(fx, prov.op(t["args"][1])), const_val(fx, prov.op(t["args"][2]))
+        elif callee_is(t, "Cmap::<'a>::find_subtable_for_platform"):
+            pl, en = const_val(fx, prov.op(t["args"][1])), "*"
+        else:
+            continue
+        # the Encoding returned when this probe succeeds: first Encoding aggregate in the success region
+        succ = []
+        import guards
+        for sb in guards.success_blocks(b, t["dest"]["l"]):
+            succ.append(sb)
+        enc = None
+        seen = set()
+        st = list(succ)
+        while st and enc is None:
+            x = st.pop()
+            if x in seen:
+                continue
+            seen.add(x)
+            for s_ in b.stmts(x):
+                if s_["k"] == "assign" and s_["rv"]["k"] == "agg" and s_["rv"].get("adt") == "font::Encoding":
+                    enc = s_["rv"]["vname"]
+            if enc is None and b.term(x)["k"] in ("goto",):
+                st.append(b.term(x)["target"])
+        probes.append((bi, pl, en, enc, t))
+    if len(probes) < 5:
+        return run.anchor_missing(rule, "probes in find_good_cmap_subtable (found %d)" % len(probes))
+    order = {}
+    for i, (bi, pl, en, enc, t) in enumerate(probes):
+        key = (pl, en)
+        order[key] = i
+        if en == "*":
+            want = "Unicode" if pl == 0 else None
+        else:
+            want = SPEC_PAIRS.get((pl, en))
+        if want is None:
+            run.fail(rule, "pref:pair:%s,%s" % (pl, en), "probe of (platform %s, encoding %s) is not a pair the specification assigns to a supported encoding" % (pl, en), b.loc(t))
+        elif enc != want:
+            run.fail(rule, "pref:meaning:%s,%s" % (pl, en), "(platform %s, encoding %s) is %s by the specification but is returned as Encoding::%s" % (pl, en, want, enc), b.loc(t))
+        else:
+            run.ok(rule, "probe %d: (platform %s, encoding %s) -> Encoding::%s" % (i + 1, pl, en, enc))
+    # ordering constraints
+    def before(a, c):
+        return a in order and c in order and order[a] < order[c]
+    cons = [((3, 10), (3, 1), "the Windows UCS-4 sub-table before the Windows BMP one"), ((0, 4), (0, "*"), "the Unicode full-repertoire sub-table before any other Unicode-platform sub-table")]
+    uni = [k for k in order if (SPEC_PAIRS.get(k) == "Unicode" or (k[1] == "*" and k[0] == 0))]
+    non = [k for k in order if k not in uni]
+    for a, c, what in cons:
+        if before(a, c):
+            run.ok(rule, what)
+        else:
+            run.fail(rule, "pref:order:%s<%s" % (a, c), "preference order: expected %s" % what, "%s:%s" % (b.file, b.line))
+    if uni and non and max(order[k] for k in uni) < min(order[k] for k in non):
+        run.ok(rule, "all Unicode probes precede Symbol / Mac Roman / Big5")
+    else:
+        run.fail(rule, "pref:order:unicode-first", "a legacy encoding is preferred over a Unicode sub-table", "%s:%s" % (b.file, b.line))
+
+
+def proj_root(t):
+    import sym
+    path = []
+    t = sym.strip(t)
+    while t[0] in ("field", "variant", "deref", "ref"):
+        if t[0] == "field":
+            path.append(str(t[2]))
+        t = sym.strip(t[1])
+    root = t[0] if t[0] != "call" else "call:" + (t[4] or t[1] or "").split("::")[-1]
+    return tuple(reversed(path)), root
+
+
+def t06_sib(run, fx):
+    """single lookups and enumeration of a format 4 sub-table go through one kernel with the raw segment values"""
+    import sym
+    rule = "T06-SIB"
+    run.rule(rule, "Format4::map_glyph and Format4::mappings_fn both obtain the glyph from glyph_id_for_id_range_offset and hand it the "
+                   "segment's idRangeOffset and idDelta exactly as produced by the segment iterator (same projection in both), so enumeration "
+                   "lists what single lookups return; CmapSubtable::map_glyph and mappings_fn have an arm for every sub-table format")
+    sibs = {}
+    for name in ("map_glyph", "mappings_fn"):
+        bs = [b for b in fx.bodies if b.path == "tables::cmap::Format4::%s" % name]
+        if len(bs) != 1:
+            run.anchor_missing(rule, "tables::cmap::Format4::%s" % name)
+            return
+        b = bs[0]
+        prov = sym.Prov(b)
+        ks = [(bi, t) for bi, t in b.calls() if callee_is(t, "Format4::glyph_id_for_id_range_offset")]
+        if len(ks) != 1:
+            run.fail(rule, "sibling:format4:%s:kernel" % name, "Format4::%s calls the shared kernel %d time(s), expected once" % (name, len(ks)), "%s:%s" % (b.file, b.line))
+            return
+        t = ks[0][1]
+        sibs[name] = (b, t, [proj_root(prov.op(a)) for a in t["args"]])
+    a, c = sibs["map_glyph"][2], sibs["mappings_fn"][2]
+    # argument 1 = id_range_offset, argument 3 = id_delta
+    bad = []
+    for k, what in ((1, "idRangeOffset"), (3, "idDelta")):
+        if a[k] != c[k] or not a[k][1].startswith("call:next"):
+            bad.append("%s: map_glyph passes %s, mappings_fn passes %s" % (what, a[k], c[k]))
+    if bad:
+        run.fail(rule, "sibling:format4:args", "; ".join(bad), sibs["map_glyph"][0].loc(sibs["map_glyph"][1]))
+    else:
+        run.ok(rule, "format 4: both siblings pass the iterator's idRangeOffset %s and idDelta %s to the shared kernel" % (a[1][0], a[3][0]))
+    import shape
+    for path in ("tables::cmap::CmapSubtable::<'a>::map_glyph", "tables::cmap::CmapSubtable::<'a>::mappings_fn"):
+        b = fx.body(path)
+        if b is None:
+            run.anchor_missing(rule, path)
+            continue
+        n, problems = shape.exhaustive_dispatch(fx, b, "tables::cmap::CmapSubtable")
+        if n == 0:
+            run.fail(rule, "sibling:dispatch:%s" % path, "%s does not dispatch on the sub-table format" % path, "%s:%s" % (b.file, b.line))
+        elif problems:
+            run.fail(rule, "sibling:dispatch:%s" % path, "%s: format(s) %s fall into a wildcard arm" % (path, problems[0][1]), "%s:%s" % (b.file, b.line))
+        else:
+            run.ok(rule, "%s lists every sub-table format" % path)
